@@ -41,7 +41,11 @@ m = {
               "source_commits": [], "add_only": True},
     "engines": [{"name": "coq-proof+correspondence", "path": "/verif/check",
                  "serves_properties": [c["property_id"] for c in checks],
-                 "kind_free_text": "Coq 8.16.1 theorems about hand-written Gallina models (coq/theories) + per-run differential "
+                 "kind_free_text": "Coq 8.16.1 theorems about Gallina models (coq/theories): hand-written models, and on every run "
+                                   "definitions regenerated from /repo's source by three fail-closed translators (constants and "
+                                   "tables; effect summaries; function bodies of the satisfaction measures, tie-breaking rules, "
+                                   "instance predicates, statistics, exhaustion wrappers and rule comparisons) with theorems "
+                                   "proving the generated definitions equal to the hand-written models + per-run differential "
                                    "correspondence: the implementation is executed on generated cases and its observables are "
                                    "compared inside Coq (vm_compute) with the model and with verified oracles"}],
     "checks": checks,
